@@ -49,6 +49,7 @@ import (
 	"github.com/nuts-foundation/nuts-node/vcr"
 	"github.com/nuts-foundation/nuts-node/vcr/credential"
 	"github.com/nuts-foundation/nuts-node/vcr/pe"
+	"github.com/nuts-foundation/nuts-node/vcr/signature/proof"
 	"github.com/nuts-foundation/nuts-node/vcr/verifier"
 	"github.com/nuts-foundation/nuts-node/vdr/didsubject"
 	"go.uber.org/mock/gomock"
@@ -66,6 +67,7 @@ type c02VP struct {
 	Nonce     string    `json:"nonce"`
 	Challenge string    `json:"challenge"`
 	Verifies  bool      `json:"verifies"`
+	JWT       bool      `json:"jwt,omitempty"`
 }
 
 type c02Def struct {
@@ -207,9 +209,19 @@ func c02NewWorld(t *testing.T, cfg c02Op) *c02World {
 			}
 			// the time window of the JSON-LD proof: the real ProofOptions.ValidAt, called the way
 			// signatureVerifier.jsonldProof calls it (current time, verifier maxSkew) - on the virtual clock
+			at := time.Now().Add(time.Duration(w.shiftMs) * time.Millisecond)
 			if ldProof, err := credential.ParseLDProof(p); err == nil {
-				at := time.Now().Add(time.Duration(w.shiftMs) * time.Millisecond)
 				if !ldProof.ValidAt(at, c02VerifierSkew()) {
+					return nil, errors.New("presentation not valid at time")
+				}
+			} else if p.Format() == vc.JWTPresentationProofFormat {
+				// JWT presentations: the same window rule applied to nbf/exp. This is wider than what the real verifier
+				// accepts for a JWT (nbf <= now <= exp, no skew), i.e. the scripted verifier errs on the permissive side.
+				opts := proof.ProofOptions{Created: p.JWT().NotBefore()}
+				if exp := p.JWT().Expiration(); !exp.IsZero() {
+					opts.Expires = &exp
+				}
+				if !opts.ValidAt(at, c02VerifierSkew()) {
 					return nil, errors.New("presentation not valid at time")
 				}
 			}
@@ -316,6 +328,8 @@ var c02ErrTags = [][2]string{
 	{"invalid verification method for JSON-LD presentation", "signer-unresolvable"},
 	{"invalid LD-proof for presentation", "signer-unresolvable"},
 	{"presentation should have exactly 1 proof", "signer-unresolvable"},
+	{"no kid header in JWT", "signer-unresolvable"},
+	{"cannot parse kid as did", "signer-unresolvable"},
 	{"presentation audience/domain is missing or does not match", "audience"},
 	{"unsupported scope", "unsupported-scope"},
 	{"presentation definition being fulfilled is not required", "pd-not-required"},
@@ -326,7 +340,6 @@ var c02ErrTags = [][2]string{
 	{"DPoP header is invalid", "dpop"},
 	{"presentation(s) or contained credential(s) are invalid", "vp-invalid"},
 	{"missing required parameters", "missing-params"},
-	{"failed to create access token: duplicate mapped field", "create-access-token:server_error/duplicate-claim"},
 	{"duplicate mapped field", "duplicate-claim"},
 	{"missing code parameter", "missing-code"},
 	{"missing code_verifier parameter", "missing-code_verifier"},
@@ -347,6 +360,13 @@ var c02ErrTags = [][2]string{
 func c02Err(err error) string {
 	var oe oauth.OAuth2Error
 	if errors.As(err, &oe) {
+		if rest, ok := strings.CutPrefix(oe.Description, "failed to create access token: "); ok {
+			// the wrapped error is rendered as "<code> - <description>"
+			if code, desc, ok := strings.Cut(rest, " - "); ok {
+				inner := c02Err(oauth.OAuth2Error{Code: oauth.ErrorCode(code), Description: desc})
+				return "err:" + string(oe.Code) + "/create-access-token:" + strings.TrimPrefix(inner, "err:")
+			}
+		}
 		for _, p := range c02ErrTags {
 			if strings.Contains(oe.Description, p[0]) {
 				return "err:" + string(oe.Code) + "/" + p[1]
@@ -579,6 +599,10 @@ func (w *c02World) canonIntrospection(body []byte) string {
 
 func c02LooksLikeVPs(l []json.RawMessage) bool {
 	for _, e := range l {
+		var jwt string
+		if json.Unmarshal(e, &jwt) == nil && strings.Count(jwt, ".") == 2 {
+			continue // a JWT presentation
+		}
 		var m map[string]json.RawMessage
 		if json.Unmarshal(e, &m) != nil {
 			return false
@@ -921,6 +945,25 @@ func (g *c02Gen) newConfig(hostile bool) c02Op {
 		}
 		g.defs = append(g.defs, d)
 	}
+	// user definitions sometimes map a claim name that an organization definition maps too: when both are fulfilled
+	// (authorization-code flow) resolveInputDescriptorValues refuses the duplicate
+	for k := 3; k < len(g.defs); k++ {
+		src := g.defs[g.rng.Intn(3)]
+		if g.rng.Intn(3) == 0 && len(src.Descriptors[0].Fields) > 0 && src.Descriptors[0].Fields[0].ID != "" {
+			f := src.Descriptors[0].Fields[0]
+			dup := false
+			for _, in := range g.defs[k].Descriptors {
+				for _, x := range in.Fields {
+					if x.ID == f.ID {
+						dup = true
+					}
+				}
+			}
+			if !dup {
+				g.defs[k].Descriptors[0].Fields = append(g.defs[k].Descriptors[0].Fields, f)
+			}
+		}
+	}
 	policyMap := map[string]map[string]json.RawMessage{}
 	for s := 0; s < 3; s++ {
 		scope := fmt.Sprintf("s%d", s)
@@ -959,9 +1002,56 @@ type c02VPSpec struct {
 	Challenge *string
 	Verifies  bool
 	NoProof   bool
+	JWT       bool     // JWT presentation (unsigned compact JWS; the verifier is scripted): times are whole seconds
+	AudExtra  bool     // JWT: aud is an array with a second, foreign audience
 }
 
 func c02Time(ms int64) string { return time.UnixMilli(ms).UTC().Format("2006-01-02T15:04:05.000Z") }
+
+// element renders the presentation as an element of a JSON array envelope (a JWT is a JSON string there)
+func (v c02VPSpec) element() string {
+	if v.JWT && !v.NoProof {
+		b, _ := json.Marshal(v.json())
+		return string(b)
+	}
+	return v.json()
+}
+
+func (v c02VPSpec) jwt(creds []string) string {
+	hdr := map[string]interface{}{"alg": "ES256", "typ": "JWT"}
+	if v.Signer != nil {
+		hdr["kid"] = *v.Signer + "#key-1"
+	} else {
+		hdr["kid"] = "not-a-did"
+	}
+	claims := map[string]interface{}{"jti": v.ID,
+		"vp": json.RawMessage(fmt.Sprintf(`{"@context":["https://www.w3.org/2018/credentials/v1"],"type":["VerifiablePresentation"],"verifiableCredential":[%s]}`, strings.Join(creds, ",")))}
+	if v.Signer != nil {
+		claims["iss"], claims["sub"] = *v.Signer, *v.Signer
+	}
+	if v.Created != nil {
+		claims["nbf"] = *v.Created / 1000
+	}
+	if v.Expires != nil {
+		claims["exp"] = *v.Expires / 1000
+	}
+	if v.Domain != nil {
+		if v.AudExtra {
+			claims["aud"] = []string{"https://other.example", *v.Domain}
+		} else {
+			claims["aud"] = *v.Domain
+		}
+	}
+	if v.Nonce != nil {
+		claims["nonce"] = *v.Nonce
+	} else if v.Challenge != nil {
+		claims["nonce"] = *v.Challenge
+	}
+	h, _ := json.Marshal(hdr)
+	c, _ := json.Marshal(claims)
+	enc := base64.RawURLEncoding.EncodeToString
+	return enc(h) + "." + enc(c) + "." + enc([]byte("scripted-verifier-no-signature"))
+}
 
 func (v c02VPSpec) json() string {
 	var creds []string
@@ -976,6 +1066,9 @@ func (v c02VPSpec) json() string {
 		sj, _ := json.Marshal(sub)
 		creds = append(creds, fmt.Sprintf(`{"@context":["https://www.w3.org/2018/credentials/v1"],"id":"did:web:issuer.example#%s-%d","type":["VerifiableCredential",%q],"issuer":"did:web:issuer.example","issuanceDate":"2024-01-01T00:00:00Z","credentialSubject":%s}`,
 			v.ID, i, c.Type, sj))
+	}
+	if v.JWT && !v.NoProof {
+		return v.jwt(creds)
 	}
 	proof := ""
 	if !v.NoProof {
@@ -1017,12 +1110,21 @@ func (v c02VPSpec) abstract() c02VP {
 		}
 		return a
 	}
-	// JSON-LD time stamps are parsed with millisecond precision as written
+	// JSON-LD time stamps are parsed with millisecond precision as written; JWT NumericDates are whole seconds
 	if v.Created != nil {
 		a.Created = c02Ptr(*v.Created * 1000000)
 	}
 	if v.Expires != nil {
 		a.Expires = c02Ptr(*v.Expires * 1000000)
+	}
+	if v.JWT {
+		a.JWT = true
+		if v.Created != nil {
+			a.Created = c02Ptr(*v.Created / 1000 * 1000000000)
+		}
+		if v.Expires != nil {
+			a.Expires = c02Ptr(*v.Expires / 1000 * 1000000000)
+		}
 	}
 	a.Signer = v.Signer
 	for _, c := range v.Creds {
@@ -1030,12 +1132,22 @@ func (v c02VPSpec) abstract() c02VP {
 	}
 	if v.Domain != nil {
 		a.Aud = []string{*v.Domain}
+		if v.JWT && v.AudExtra {
+			a.Aud = []string{"https://other.example", *v.Domain}
+		}
 	}
 	if v.Nonce != nil {
 		a.Nonce = *v.Nonce
 	}
 	if v.Challenge != nil {
 		a.Challenge = *v.Challenge
+	}
+	if v.JWT {
+		// one claim serves as nonce and as challenge
+		if v.Nonce == nil && v.Challenge != nil {
+			a.Nonce = *v.Challenge
+		}
+		a.Challenge = ""
 	}
 	return a
 }
@@ -1071,6 +1183,9 @@ func (g *c02Gen) baselineVP(subject string, d c02DefSpec, holder string, now int
 	vp := c02VPSpec{ID: fmt.Sprintf("%s#vp%d", holder, g.vpSeq), Signer: &holder, Verifies: true,
 		Created: c02Ptr(created), Expires: c02Ptr(created + validity),
 		Domain: c02Ptr(c02PublicURL + "/oauth2/" + subject), Nonce: c02Ptr(fmt.Sprintf("n%d", g.nonceSeq))}
+	if g.rng.Intn(4) == 0 {
+		vp.JWT, vp.AudExtra = true, g.rng.Intn(2) == 0
+	}
 	for _, in := range d.Descriptors {
 		c := c02CredSpec{Type: in.Type, Subject: &holder, Fields: map[string]interface{}{}}
 		for _, f := range in.Fields {
@@ -1208,6 +1323,11 @@ func (g *c02Gen) authResponse(sess *c02GenSession, defects []string, now int64) 
 		} else {
 			vp.Nonce = &nonce
 		}
+		if strings.HasPrefix(nonce, "on#") {
+			// a server-generated nonce is known by name only and substituted textually at execution time:
+			// not possible inside the base64 payload of a JWT
+			vp.JWT = false
+		}
 		return vp
 	}
 	vps := []c02VPSpec{mk(d, holder)}
@@ -1296,7 +1416,7 @@ func (g *c02Gen) authResponse(sess *c02GenSession, defects []string, now int64) 
 	if multi {
 		var l []string
 		for _, v := range vps {
-			l = append(l, v.json())
+			l = append(l, v.element())
 		}
 		env = "[" + strings.Join(l, ",") + "]"
 	} else {
@@ -1504,6 +1624,9 @@ func (g *c02Gen) s2sRequest(defects []string, now int64) c02Op {
 	}
 	if has("overlong") {
 		m.Expires = c02Ptr(*m.Created + 5001 + int64(g.rng.Intn(2))*60000)
+		if m.JWT {
+			m.Expires = c02Ptr(*m.Created/1000*1000 + 6000)
+		}
 	}
 	if has("missing-expiry") {
 		if g.rng.Intn(2) == 0 {
@@ -1608,7 +1731,7 @@ func (g *c02Gen) s2sRequest(defects []string, now int64) c02Op {
 	if multi {
 		var l []string
 		for _, v := range vps {
-			l = append(l, v.json())
+			l = append(l, v.element())
 		}
 		env = "[" + strings.Join(l, ",") + "]"
 	} else {
@@ -1744,6 +1867,86 @@ func c02ReadOps(t *testing.T, path string) []c02Op {
 	return ops
 }
 
+// c02Targeted runs the scenarios that aim at the property's sharp edges on every run:
+// (a) one definition per standard member name of the introspection response (VERIF_C02_FIELDS, regenerated) whose
+//     constraint field id is that name: issue (with and without DPoP), introspect plain and extended;
+// (b) the replay window: accept a presentation created now+d valid for v, let a pass, present it again - for a grid of
+//     d, v, a around nonce TTL and acceptance window.
+func c02Targeted(t *testing.T, out *c02Out, seed int64) {
+	fields := strings.Split(os.Getenv("VERIF_C02_FIELDS"), ",")
+	if len(fields) < 2 {
+		fields = []string{"active", "aud", "client_id", "cnf", "exp", "iat", "iss", "presentation_definitions", "presentation_submissions", "scope", "vps"}
+	}
+	fields = append(fields, "sub", "jti", "org_name")
+	rng := rand.New(rand.NewSource(seed*31 + 5))
+	// (a)
+	for _, name := range fields {
+		g := &c02Gen{rng: rng, subjects: []string{"alpha", "beta"}}
+		d := c02DefSpec{Key: 0, ID: "pd0", Descriptors: []c02Descriptor{{ID: "d0", Type: "Cred0", Fields: []c02FieldSpec{{ID: name, Name: "f_" + name}}}}}
+		g.defs = []c02DefSpec{d}
+		g.policy = []c02Policy{{Scope: "s0", Defs: []c02Def{{Owner: "organization", ID: d.ID, Key: 0}}}}
+		raw, _ := json.Marshal(map[string]map[string]json.RawMessage{"s0": {"organization": json.RawMessage(d.json())}})
+		cfg := c02Op{Op: "cfg", PublicURL: c02PublicURL, Subjects: g.subjects, Policy: g.policy, PolicyRaw: string(raw), DefsRaw: []string{d.json()}}
+		w := c02NewWorld(t, cfg)
+		cfg.T = w.nowNs()
+		out.emit(&cfg, "cfg")
+		for k := 0; k < 2; k++ {
+			var op c02Op
+			for {
+				op = g.s2sRequest(nil, w.nowMs())
+				if len(op.VPs) == 1 {
+					break
+				}
+			}
+			op.DPoP = &c02DPoP{Kind: "absent"}
+			if k == 1 {
+				op.DPoP = &c02DPoP{Kind: "valid", Idx: 1}
+			}
+			line := w.exec(&op)
+			out.emit(&op, line)
+			if strings.HasPrefix(line, "200 token=") {
+				tok := strings.Fields(line)[1][len("token="):]
+				for _, ext := range []bool{false, true} {
+					in := c02Op{Op: "introspect", Token: tok, Extended: ext}
+					out.emit(&in, w.exec(&in))
+				}
+			}
+		}
+		w.ctrl.Finish()
+	}
+	// (b)
+	g := &c02Gen{rng: rng, subjects: []string{"alpha", "beta"}}
+	cfg := g.newConfig(false)
+	w := c02NewWorld(t, cfg)
+	cfg.T = w.nowNs()
+	out.emit(&cfg, "cfg")
+	for _, d := range []int64{0, 2500, 4800} {
+		for _, v := range []int64{2500, 5000} {
+			for _, a := range []int64{6000, 9000, 9900, 10100, 11000, 14000, 14700, 15300, 16000} {
+				g.forceCreated, g.forceExpires = c02Ptr(d), c02Ptr(v)
+				var op c02Op
+				for {
+					op = g.s2sRequest(nil, w.nowMs())
+					if len(op.VPs) == 1 {
+						break
+					}
+				}
+				op.Defects = []string{fmt.Sprintf("window:d=%d,v=%d,a=%d", d, v, a)}
+				out.emit(&op, w.exec(&op))
+				adv := c02Op{Op: "advance", Ms: a}
+				out.emit(&adv, w.exec(&adv))
+				again := op
+				again.Defects = []string{"verbatim-replay"}
+				again.DPoP = &c02DPoP{Kind: op.DPoP.Kind, Idx: op.DPoP.Idx}
+				out.emit(&again, w.exec(&again))
+				clear := c02Op{Op: "advance", Ms: 30000}
+				out.emit(&clear, w.exec(&clear))
+			}
+		}
+	}
+	w.ctrl.Finish()
+}
+
 func TestVerifC02(t *testing.T) {
 	outDir := os.Getenv("VERIF_OUT")
 	if outDir == "" {
@@ -1775,6 +1978,7 @@ func TestVerifC02(t *testing.T) {
 			c02RunOps(t, out, c02ReadOps(t, f))
 		}
 	}
+	c02Targeted(t, out, seed)
 	worlds := 40
 	if n, err := strconv.Atoi(os.Getenv("VERIF_WORLDS")); err == nil {
 		worlds = n
